@@ -905,6 +905,68 @@ def _make_machine(rec: Recorder, kept: dict[str, tuple[str, Any]]) -> Any:
     return Machine
 
 
+# ------------------------------------------------------------------------------------------------
+# bursts: many objects created under ONE display name, then objects whose display name is that name followed by digits
+# (an internal name glued together from display name and counter would collide: "m" number 11 and "m1" number 1)
+
+
+def burst_strategy() -> Any:
+    from hypothesis import strategies as st  # pylint: disable=import-outside-toplevel
+    return st.fixed_dictionaries({"kind": st.sampled_from(["quantity", "quantity", "symbol", "function"]),
+        "base": st.sampled_from(["m", "E_k", "x", "q1"]), "n": st.integers(9, 24),
+        "suffixes": st.lists(st.sampled_from(["1", "2", "11", "12", "10", "21", "_1"]), min_size=1, max_size=4, unique=True),
+        "late_first": st.booleans()})
+
+
+def judge_burst(case: dict[str, Any]) -> list[Viol]:
+    """Runs in a forked process of its own."""
+    import sympy  # pylint: disable=import-outside-toplevel
+    from sympy.physics import units as su  # pylint: disable=import-outside-toplevel
+    from symplyphysics import Function, Quantity, Symbol  # pylint: disable=import-outside-toplevel
+    units_ = [su.meter, su.second, su.kilogram, su.kelvin, su.ampere]
+    made: list[tuple[str, Any, Any, Any]] = []
+
+    def make(name: str, i: int) -> None:
+        u = units_[i % len(units_)]
+        if case["kind"] == "quantity":
+            o = Quantity((i + 2) * u, display_symbol=name)
+            made.append((name, o, sympy.sympify(o.scale_factor), o.dimension))
+        elif case["kind"] == "symbol":
+            o = Symbol(name, su.Dimension(u.dimension if hasattr(u, "dimension") else 1))
+            made.append((name, o, None, o.dimension))
+        else:
+            o = Function(name, dimension=su.Dimension(u.dimension if hasattr(u, "dimension") else 1))
+            made.append((name, o, None, o.dimension))
+
+    names = [case["base"]] * case["n"]
+    late = [case["base"] + sfx for sfx in case["suffixes"]]
+    order = late + names if case["late_first"] else names + late
+    try:
+        for i, nm in enumerate(order):
+            make(nm, i)
+    except Exception as exc:  # pylint: disable=broad-except
+        return [(f"burst:exception:{type(exc).__name__}", f"creating {case['kind']} objects named {order[:3]}...: {exc}")]
+    out: list[Viol] = []
+    objs = [m[1] for m in made]
+    for i, a in enumerate(objs):
+        for j in range(i + 1, len(objs)):
+            if a == objs[j] or hash(a) == hash(objs[j]) and a is objs[j]:
+                out.append((f"alias:burst:{case['kind']}",
+                    f"{case['kind']} number {i + 1} (display name {made[i][0]!r}) and number {j + 1} (display name {made[j][0]!r}) "
+                    f"created separately compare equal"))
+                return out
+    if len(set(objs)) != len(objs) or len({o: 1 for o in objs}) != len(objs):
+        out.append((f"alias:burst:{case['kind']}", f"{len(objs)} separately created objects collapse to {len(set(objs))} in a set"))
+    if case["kind"] == "quantity":
+        for i, (nm, o, sf, dim) in enumerate(made):
+            if sympy.sympify(o.scale_factor) != sf or o.dimension != dim or su.systems.SI.get_quantity_dimension(o) != dim:
+                out.append(("alias:burst:quantity-overwritten",
+                    f"quantity number {i + 1} ({nm!r}) was created with scale factor {sf} and {dim}; after the later creations it "
+                    f"reads {o.scale_factor} and {su.systems.SI.get_quantity_dimension(o)}"))
+                break
+    return out
+
+
 def _shard(task: dict[str, Any]) -> Recorder:
     # pylint: disable=import-outside-toplevel
     import hypothesis
@@ -934,6 +996,18 @@ def run(ctx: Ctx) -> None:
         if status != "ok":
             raise RuntimeError(f"C09 shard failed: {status}: {val}")
         ctx.merge(val)
+    bursts: list[Any] = []
+    from ..hyp import hyp_run  # pylint: disable=import-outside-toplevel
+    hyp_run(burst_strategy(), bursts.append, ctx.pick(48, 600), ctx.seed * 100000 + 77777)
+    for case, (status, val) in zip(bursts, run_tasks(judge_burst, bursts, fresh=True, timeout=120)):
+        if status == "timeout":
+            ctx.inconclusive += 1
+            continue
+        if status != "ok":
+            raise RuntimeError(f"C09 burst failed: {status}: {val}")
+        ctx.case({"burst": case}, nontrivial=True, labels=["burst", "burst:" + case["kind"]])
+        for key, what in val:
+            ctx.violation(key, what, {"burst": case})
     trans = sorted(set(ctx.notes.get("transitions", [])))
     ctx.notes["transitions"] = len(trans)
     ctx.notes["steps_executed"] = int(ctx.counters.get("steps", 0))
@@ -951,7 +1025,7 @@ def run(ctx: Ctx) -> None:
     t_end = time.time() + ctx.pick(25, 120)  # total minimisation budget
     for v in sorted(ctx.violations, key=lambda v: len(v["case"])):
         key = v["key"]
-        if key in seen or key in known or time.time() > t_end:
+        if key in seen or key in known or time.time() > t_end or isinstance(v["case"], dict):
             continue
         seen.add(key)
         small = shrink(v["case"], _candidates, lambda c, key=key: any(k == key for k, _ in _replay(c, False)),
@@ -993,6 +1067,11 @@ def _replay(case: list[Any], every_step: bool) -> list[Viol]:
     return out
 
 
-def replay(case: list[Any]) -> list[Viol]:
+def replay(case: Any) -> list[Viol]:
     """Re-execute a step list without Hypothesis; invariants are evaluated after every step."""
+    if isinstance(case, dict) and "burst" in case:
+        status, val = run_tasks(judge_burst, [case["burst"]], fresh=True, timeout=120)[0]
+        if status != "ok":
+            raise RuntimeError(f"C09 burst replay: {status}: {val}")
+        return list(val)
     return _replay(case, True)
